@@ -231,4 +231,12 @@ def rule_restore_gate(ctx: Ctx):
     c17.rule_steps(ctx, rule="C11.guard")
 
 
-RULES = [rule_identity, rule_guard, rule_who, rule_constructor, rule_reactivation, rule_sentinel, rule_target, rule_model, rule_restore_gate]
+def rule_activation_not_requeued(ctx: Ctx):
+    """C11.who: the activation trigger is recognised by identity and enters the initial state when it is processed: it is
+    processed once because it is queued once - nothing but put() adds to the queue."""
+    from . import c03
+
+    c03.rule_producers(ctx, "C11.who")
+
+
+RULES = [rule_identity, rule_guard, rule_who, rule_constructor, rule_reactivation, rule_sentinel, rule_target, rule_model, rule_restore_gate, rule_activation_not_requeued]
